@@ -44,7 +44,7 @@ class World:
     ]
     PROBES_EXPECTED = ["mixed-kinds", "const-task", "const-sum-task", "empty-sum-task", "zero-shot-task", "measurable-task", "no-measurable",
                        "over-delivery", "peer-fault", "tracker-runner", "tagged-runner", "symbolic-runner", "exact-step", "bind-step",
-                       "empty-task-list", "disk-fault"]
+                       "empty-task-list", "disk-fault", "exact-zero-shot-task"]
 
     def gen_plan(self, seed, tier):
         r = random.Random(seed)
@@ -94,7 +94,8 @@ class World:
                 for _ in range(r.randint(1, 4)):
                     c = gen.rand_circuit(r, n, r.randint(1, 6), wrappers=0.15, powexp=False, custom=0.0, exclude=["U3"], max_arity=2)
                     c["n"] = n
-                    tasks.append({"c": c, "op": gen.rand_pauli(r, n, r.randint(1, 3), ops="XYZ", constant=0.15, dup=0.1)})
+                    tasks.append({"c": c, "op": gen.rand_pauli(r, n, r.randint(1, 3), ops="XYZ", constant=0.15, dup=0.1),
+                                  "shots": r.choice([None, None, 0, 0, 1, 25])})
                 s = {"op": "exact", "args": {"tasks": tasks}}
             else:
                 k = r.randint(1, 5)
@@ -289,7 +290,9 @@ class World:
                 continue
             dense = refmodel.pauli_dense(gen.pauli_terms_of(t["op"]), n)
             want.append(complex(np.vdot(state, dense @ state)))
-            tasks.append(EstimationTask(op, circ, None))
+            tasks.append(EstimationTask(op, circ, t.get("shots")))
+            if t.get("shots") == 0:
+                ctx.probe("exact-zero-shot-task")
         if not tasks:
             ctx.log("exact", "noop")
             return
